@@ -9,6 +9,11 @@ Streams
              runs (part of the options in the file, overriding values in --config),
              plus a re-run from another working directory with a relative project path.
   bad      : one unknown key or one ill-typed value added to an option set, per format.
+  layout   : (round 6) where the options are taken from: a project file with a metadata block or its own manifest,
+             manifests of other packages and text files for the `{!file!}` include workaround lying in the other
+             directories, FORD started from 4-5 working directories with absolute / relative / redundant spellings
+             of the project path; compared with `c15.effl` (dirname, regenerated lookup table, manifest states,
+             include step); oracles O3, O6 (incl. the included text, looked up from the project file), O2.
 
 For every run of the real `ford.initialize()` the Lean model (`c15.eff`) is run on the same
 inputs and the canonical observations are compared (correspondence).  The property oracle
@@ -106,6 +111,10 @@ class _SubprocessShim:
         return None
 
 
+# directories of the layout stream (relative to <scratch>/lay); "" is the root of the tree
+LAY_DIRS = ["", "pkg", "pkg/doc", "other", "other/sub", "empty"]
+
+
 class Impl:
     def __init__(self, ford, root: Path):
         self.ford = ford
@@ -139,6 +148,11 @@ class Impl:
             other = self.root / "elsewhere" / "deep"
             other.mkdir(parents=True, exist_ok=True)
             cwd, addr = other, "../../proj/p.md"
+        return self._start(cwd, addr, argv, config)
+
+    def _start(self, cwd, addr, argv, config):
+        """`cd cwd; ford <argv> [--config config] addr` up to the end of ford.initialize()"""
+        ford = self.ford
         args = ["ford", addr] + list(argv)
         if config is not None:
             args += ["--config", config]
@@ -165,6 +179,38 @@ class Impl:
             if hasattr(pf, "close"):
                 pf.close()
         return res
+
+    def lay_out(self, proj_rel, md_lines, manifests, files=None):
+        """(Re)create the directory tree `<root>/lay` of the layout stream: the project file
+        `<proj_rel>/ford.md` and, per directory, what `fpm.toml` is there (`None` = nothing, `"<dir>"` = a
+        directory of that name, else the text of the file)."""
+        import shutil
+
+        lay = self.root / "lay"
+        if lay.exists():
+            shutil.rmtree(lay)
+        for rel in LAY_DIRS:
+            (lay / rel).mkdir(parents=True, exist_ok=True)
+        (lay / proj_rel / "ford.md").write_text(
+            "\n".join(md_lines) + "\n\nProject text.\n" if md_lines else "Project text.\n")
+        for rel, text in manifests.items():
+            if text is None:
+                continue
+            f = lay / rel / "fpm.toml"
+            if text == "<dir>":
+                f.mkdir()
+            else:
+                f.write_text(text)
+        for rel, text in (files or {}).items():
+            f = lay / rel
+            f.parent.mkdir(parents=True, exist_ok=True)
+            with open(f, "w", newline="") as fh:
+                fh.write(text)
+        return lay
+
+    def run_layout(self, lay, cwd_rel, addr, argv, config=None):
+        self.n += 1
+        return self._start(lay / cwd_rel if cwd_rel != "<scratch>" else self.root, addr, argv, config)
 
     def observe(self, data, log):
         obs = {}
@@ -586,6 +632,7 @@ class Ctx:
         self.cli = {e[0]: (e[1], e[2]) for e in tables["cli"]}
         self.specials = {n: default_spellings(n, tag, d, tables.get("sentinels", ())) for n, tag, d in tables["schema"]}
         self.pending = []   # (model request, impl obs, description)
+        self.inc_repaired = False  # variant of the include workaround (decided in run())
         self.eff_cmd = "c15.eff"   # "c15.effr": variant `repaired` of the extra_mods merge (decided in run())
         self.hist = {}
         self.samples = []
@@ -649,7 +696,12 @@ class Ctx:
             mo = parse_model(resp, self.fields)
             if mo[0] == "err" and mo[1] == "unmodelled":
                 self.n_unmodelled += 1
-                self.count("model:unmodelled(type confusion)")
+                if desc.get("stream") == "layout" and desc.get("include"):
+                    self.count("model:unmodelled(include statement outside the modelled fragment)")
+                    if os.environ.get("C15_DEBUG"):
+                        print("UNMODELLED-INCLUDE", desc.get("md"), desc.get("cwd"), file=sys.stderr)
+                else:
+                    self.count("model:unmodelled(type confusion)")
                 continue
             ok = False
             if mo[0] == "ok" and obs[0] == "ok":
@@ -962,6 +1014,405 @@ def bad_case(cx: Ctx, opts, baseline_runs):
                                    observed=o[0], message=(o[3][:200] if o[0] == "err" else "accepted")), cls)
 
 
+
+# --------------------------------------------------------------------------
+# layout stream (round 6): where the options are taken from
+# --------------------------------------------------------------------------
+
+
+def manifest_state(text):
+    """The harness's own reading of one `fpm.toml` (from the property statement: the options are "the `[extra.ford]`
+    table of fpm.toml"): (state, keyword table)"""
+    if text is None or text == "<dir>":
+        return "absent", None
+    try:
+        data = tomllib.loads(text)
+    except tomllib.TOMLDecodeError:
+        return "invalid", None
+    if "extra" not in data:
+        return "noExtra", None
+    if not isinstance(data["extra"], dict) or "ford" not in data["extra"]:
+        return "noFord", None
+    return "ford", data["extra"]["ford"]
+
+
+def read_lines(path):
+    """what `IncludePreprocessor` gets from a file: `readlines()` (text mode, utf-8), line ends stripped"""
+    with open(path, "r", encoding="utf-8") as fh:
+        return [x.rstrip("\r\n") for x in fh.readlines()]
+
+
+def layout_request(cmd, lay, cwd, addr, pkg, manifests, md_lines, cli_kv, files=None, inc_repaired=False):
+    r = [cmd, str(cwd), addr, pkg, "1" if inc_repaired else "0"]
+    ents = []
+    for rel, text in manifests.items():
+        st, kw = manifest_state(text)
+        if st == "absent":
+            continue
+        ents.append((os.path.normpath(str(lay / rel)), st, kw or {}))
+    r.append(str(len(ents)))
+    for d, st, kw in ents:
+        r += [d, st, str(len(kw))]
+        for k, v in kw.items():
+            r += [k, enc_val(v)]
+    r.append(str(len(files or {})))
+    for rel in (files or {}):
+        ls = read_lines(lay / rel)
+        r += [os.path.normpath(str(lay / rel)), str(len(ls))] + ls
+    r += [str(len(md_lines))] + list(md_lines)
+    r += ["0", "0"]
+    r += [str(len(cli_kv))]
+    for k, v in cli_kv:
+        r += [k, enc_val(v)]
+    return r
+
+
+def addr_spellings(rng, lay, cwd_abs: Path, pf_abs: Path):
+    """ways of naming the project file on the command line from the working directory"""
+    rel = os.path.relpath(pf_abs, cwd_abs)
+    head, _, name = rel.rpartition("/")
+    messy = [("./" + rel), (head + "//" + name if head else "./" + name),
+             ((head + "/./" + name) if head else "././" + name),
+             os.path.join("..", cwd_abs.name, rel) if cwd_abs != lay.parent and cwd_abs.name else rel]
+    return {"abs": str(pf_abs), "rel": rel, "messy": rng.choice(messy)}
+
+
+def cli_argv(cx, cli):
+    argv, cli_kv = [], []
+    for dest, (kind, flags) in cx.cli.items():
+        if dest not in cli:
+            continue
+        vals = cli[dest]
+        fl = flags[cx.rng.randrange(len(flags))]
+        if kind == "append":
+            for x in vals:
+                argv += [fl, x]
+            cli_kv.append((dest, list(vals)))
+        elif kind == "store":
+            argv += [fl, vals]
+            cli_kv.append((dest, vals))
+        elif kind == "storeTrue":
+            argv += [fl]
+            cli_kv.append((dest, True))
+        elif kind == "storeFalse":
+            argv += [fl]
+            cli_kv.append((dest, False))
+    return argv, cli_kv
+
+
+DISTRACTOR_KINDS = ["ford", "ford", "ford", "ford", "ford-empty", "noFord", "noFord2", "noExtra", "invalid", "<dir>", "emptyfile"]
+
+
+def distractor_text(cx, kind, usable):
+    """an fpm.toml of another package: (text, abstract options or None)"""
+    rng = cx.rng
+    if kind == "ford":
+        chosen = rng.sample(usable, rng.choice([1, 2, 3]))
+        opts = []
+        for n, t in chosen:
+            v = gen_value(rng, n, t, cx.specials.get(n, ()))
+            if n == "creation_date":
+                v = v.replace("%", "pc")
+            opts.append((n, t, v))
+        kw, _ = toml_data(rng, opts, scalar_ok=False)
+        return toml_text_for(kw), opts
+    return {"ford-empty": 'name = "other"\n[extra.ford]\n', "noFord": 'name = "other"\n[extra]\nfoo = 1\n',
+            "noFord2": '[extra.fordx]\nproject = "no"\n[extra.other.ford]\nproject = "neither"\n',
+            "noExtra": 'name = "other"\n[ford]\nproject = "not this table"\n[build]\nauto-tests = true\n',
+            "invalid": "this is [not toml\n", "<dir>": "<dir>", "emptyfile": ""}[kind], None
+
+
+
+INC_OPTIONS = ["summary", "author", "author_description", "version", "project", "email", "website", "revision"]
+INC_NAMES = ["inc.md", "inc.md", "incs/inc.md", "./inc.md", "../up.md", "missing.md", "other.md", "<abs>"]
+INC_STYLES = {"one": "{T}", "multi": "{T}\nline two\n", "empty": "", "crlf": "{T}\r\nsecond\r\n", "nl": "{T}\n"}
+
+
+def include_files(style):
+    """text files lying in every directory of the layout; the content names the directory, so that a file
+    taken from the wrong directory shows"""
+    files = {}
+    for d in LAY_DIRS:
+        pre = (d + "/") if d else ""
+        for rel, tag in (("inc.md", "INC"), ("incs/inc.md", "SUBINC"), ("up.md", "UP"), ("other.md", "OTHER")):
+            files[pre + rel] = INC_STYLES[style].replace("{T}", f"{tag}[{d or 'root'}]")
+    files["other/absfile.md"] = "ABS\n"
+    return files
+
+
+def gen_include_value(rng, lay):
+    def stmt():
+        name = rng.choice(INC_NAMES)
+        if name == "<abs>":
+            name = str(lay / "other" / rng.choice(["absfile.md", "up.md", "nosuch.md"]))
+        return "{!" + rng.choice(["", " ", "  "]) + name + rng.choice(["", " "]) + "!}"
+    lines = [stmt() + rng.choice(["", "", " tail", "."])]
+    for _ in range(rng.choice([0, 0, 0, 1, 2])):
+        lines.append(rng.choice(["plain second", "see " + stmt() + " end", stmt(), "a { b ! c"]))
+    return "\n".join(lines)
+
+
+def expected_include(proj_abs: Path, base_written, value: str):
+    """Oracle side (documentation: `{!file!}` "will be replaced by the contents of file"; md_base_dir is "the directory
+    relative to which any included Markdown files' paths are specified", default the directory containing the project
+    file; and, from the property, a relative md_base_dir is relative to the project file)."""
+    import re
+    base = os.path.normpath(os.path.join(str(proj_abs), base_written if base_written is not None else "."))
+    out = []
+    for line in value.split("\n"):
+        m = re.match(r"^(.*?)\{!\s*(\S+?)\s*!\}(.*)$", line)
+        if not m:
+            out.append(line)
+            continue
+        pre, name, post = m.groups()
+        f = os.path.normpath(os.path.join(base, name))
+        if os.path.isfile(f):
+            text = read_lines(f) or [""]
+            text[0] = pre + text[0]
+            text[-1] = text[-1] + post
+            out += text
+        else:
+            out.append(pre + post)
+    return "\n".join(out)
+
+
+def layout_case(cx: Ctx, usable, stored=None):
+    """One project (options in the metadata block, or in the manifest next to the project file), manifests of other
+    packages lying in the other directories, FORD started from several working directories with several spellings of
+    the project file's path.
+      O3  every start gives the same result (settings, or the same error class)
+      O6  what the project's own source says is effective, relative paths from the project file's directory
+      O2  a command-line option wins, from every working directory
+    + exact correspondence of every start with the model (`c15.effl`: dirname, lookup table, manifest states)."""
+    rng, rep = cx.rng, cx.rep
+    if stored is None:
+        proj_rel = rng.choice(["pkg/doc", "pkg/doc", "pkg", "other/sub"])
+        fmt = rng.choice(["md", "md", "toml"])
+        chosen = rng.sample(usable, rng.choice([1, 2, 3, 4]))
+        opts = []
+        for n, t in chosen:
+            v = gen_value(rng, n, t, cx.specials.get(n, ()))
+            if n == "creation_date":
+                v = v.replace("%", "pc")
+            opts.append((n, t, v))
+        seps = cx.t["seps"]
+        md, manifests, files, inc = [], {}, {}, {}
+        if fmt == "md":
+            md = ["---"]
+            for key, t, v in opts:
+                md += md_lines_for(rng, key, t, v, seps.get(key, "="))
+            if rng.random() < 0.45:
+                # the (deprecated) include workaround of the metadata format: a string option whose value opens with `{!file!}`
+                style = rng.choice(sorted(INC_STYLES))
+                files = include_files(style)
+                cand = [k for k in INC_OPTIONS if k in cx.fields and k not in [o[0] for o in opts]]
+                if "md_base_dir" not in [o[0] for o in opts] and rng.random() < 0.5:
+                    bv = rng.choice(["incs", ".", "./incs", "..", "other", str(cx.impl.root / "lay" / "other")])
+                    opts.append(("md_base_dir", "path", bv))
+                    md += md_lines_for(rng, "md_base_dir", "path", bv, "=")
+                for key in rng.sample(cand, rng.choice([1, 1, 2])):
+                    v = gen_include_value(rng, cx.impl.root / "lay")
+                    inc[key] = v
+                    vl = v.split("\n")
+                    md += [f"{key}: {vl[0]}"] + ["    " + x for x in vl[1:]]
+                cx.count("layout:include:" + style)
+            md.append(rng.choice(["---", "..."]))
+            own = rng.choice([None, None, None, None, "<dir>", "noExtra", "noFord", "noFord2", "emptyfile", "invalid"])
+            manifests[proj_rel] = None if own is None else distractor_text(cx, own, usable)[0]
+            own_kind = "none" if own is None else own
+        else:
+            kw, _ = toml_data(rng, opts, scalar_ok=False)
+            manifests[proj_rel] = toml_text_for(kw)
+            own_kind = "ford"
+        others = [d for d in LAY_DIRS if d != proj_rel]
+        with_ford = []
+        for d in others:
+            if rng.random() < 0.6:
+                kind = rng.choice(DISTRACTOR_KINDS)
+                manifests[d] = distractor_text(cx, kind, usable)[0]
+                cx.count("layout:elsewhere:" + kind)
+                if kind == "ford":
+                    with_ford.append(d)
+        if not with_ford:
+            d = rng.choice(others)
+            manifests[d] = distractor_text(cx, "ford", usable)[0]
+            cx.count("layout:elsewhere:ford")
+            with_ford.append(d)
+        cli = gen_cli(cx) if rng.random() < 0.3 else {}
+        starts = [("<scratch>", "abs")]
+        pool = [(d, st) for d in LAY_DIRS for st in ("abs", "rel", "messy")]
+        starts += rng.sample(pool, 2)
+        starts.append((rng.choice(with_ford), rng.choice(["abs", "rel", "messy"])))
+        if proj_rel not in [c for c, _ in starts]:
+            starts.append((proj_rel, "rel"))
+        cx.count("layout:own-source:" + fmt + "/" + own_kind)
+    else:
+        proj_rel, fmt, md, manifests, cli, starts = (stored[k] for k in ("project_dir", "fmt", "md", "manifests", "cli", "starts"))
+        files, inc = stored.get("files") or {}, stored.get("include") or {}
+        opts = [tuple(o) for o in stored["options"]]
+        starts = [tuple(x) for x in starts]
+    lay = cx.impl.root / "lay"
+    pf_abs = lay / proj_rel / "ford.md"
+    proj_abs = Path(os.path.normpath(str(lay / proj_rel)))
+    desc = {"stream": "layout", "project_dir": proj_rel, "fmt": fmt, "options": [list(o) for o in opts], "md": md,
+            "manifests": manifests, "cli": cli, "starts": [list(x) for x in starts], "files": files, "include": inc}
+    argv, cli_kv = cli_argv(cx, cli)
+    base_written = next((v for k, _, v in opts if k == "md_base_dir"), None)
+    # decidable class of C15-md-include-base-dir-cwd: an include statement + a *relative* md_base_dir in the metadata
+    inc_class = "C15-md-include-base-dir-cwd" if (inc and base_written is not None and not base_written.startswith("/")) else None
+    results = []
+    cx.impl.lay_out(proj_rel, md, manifests, files)
+    for cwd_rel, style in starts:
+        cwd_abs = cx.impl.root if cwd_rel == "<scratch>" else Path(os.path.normpath(str(lay / cwd_rel)))
+        addr = style if style not in ("abs", "rel", "messy") else addr_spellings(rng, lay, cwd_abs, pf_abs)[style]
+        obs = cx.impl.run_layout(lay, cwd_rel, addr, argv)
+        cx.evals += 1
+        cx.count("layout:start:" + ("project-dir" if cwd_abs == proj_abs else "scratch" if cwd_rel == "<scratch>" else
+                                    "cwd-has-ford-table" if manifest_state(manifests.get(cwd_rel))[0] == "ford" else
+                                    "cwd-other-manifest" if manifests.get(cwd_rel) is not None else "cwd-no-manifest")
+                 + "/" + (style if style in ("abs", "rel", "messy") else "stored"))
+        d1 = dict(desc, cwd=cwd_rel, addr=addr)
+        kws = [manifest_state(t)[1] for t in manifests.values()]
+        if all(encodable(v) for kw in kws if kw for v in kw.values()):
+            cmd = "c15.efflr" if cx.eff_cmd == "c15.effr" else "c15.effl"
+            cx.pending.append((layout_request(cmd, lay, cwd_abs, addr, cx.pkg, manifests, md, cli_kv, files, cx.inc_repaired), obs, d1))
+        results.append((cwd_rel, addr, obs))
+    cx.distinct.add(common.digest(("layout", proj_rel, fmt, repr(opts), repr(sorted(manifests.items())), repr(starts))))
+    ref_cwd, ref_addr, ref = results[0]
+    # ---- O3: the same project file, the same files: the same result from every working directory
+    for cwd_rel, addr, o in results[1:]:
+        a, b = strip_time(ref), strip_time(o)
+        if a != b:
+            if a[0] == "ok" and b[0] == "ok":
+                diff = {k: (a[1].get(k), b[1].get(k)) for k in a[1] if a[1].get(k) != b[1].get(k)}
+            else:
+                diff = {ref_cwd: a[:3] if a[0] == "err" else "ok", cwd_rel: b[:3] if b[0] == "err" else "ok",
+                        "message": (o[3][:200] if o[0] == "err" else ref[3][:200] if ref[0] == "err" else "")}
+            cx.n_oracle_fail += 1
+            cls = inc_class if (a[0] == "ok" and b[0] == "ok" and set(diff) <= set(inc)) else None
+            rep.failing_input(dict(desc, oracle="O3 independent of working directory (same project file, same files on disk)",
+                                   start_a={"cwd": ref_cwd, "project_file": ref_addr},
+                                   start_b={"cwd": cwd_rel, "project_file": addr,
+                                            "fpm.toml in that working directory": manifests.get(cwd_rel)},
+                                   difference=diff), cls)
+            break
+    # ---- O6 / O2 on every start
+    for cwd_rel, addr, o in results:
+        if o[0] != "ok":
+            continue
+        bad = False
+        for key, t, v in opts:
+            if key in cli:
+                continue
+            miss = file_expectation(proj_abs, key, t, v, o[1], cx.t["licenses"], cx.t["intrinsic"])
+            if miss is not None:
+                cls = None
+                if isinstance(miss, tuple):
+                    cls, miss = miss
+                cx.n_oracle_fail += 1
+                rep.failing_input(dict(desc, oracle="O6 what the project's own settings source says is effective, relative paths from "
+                                                    "the project file's directory", cwd=cwd_rel, project_file=addr, option=key,
+                                       written=v, expected=miss, observed=o[1].get(key)), cls)
+                bad = True
+                break
+        for key, v in inc.items():
+            if bad or key in cli:
+                continue
+            exp = "S" + expected_include(proj_abs, base_written, v)
+            if o[1].get(key) != exp:
+                cx.n_oracle_fail += 1
+                rep.failing_input(dict(desc, oracle="O6 an included file is looked up relative to md_base_dir, which is relative to the "
+                                                    "project file (default: the project file's directory), whatever the working directory",
+                                       cwd=cwd_rel, project_file=addr, option=key, written=v, md_base_dir=base_written,
+                                       expected=exp, observed=o[1].get(key)), inc_class)
+                bad = True
+        for dest, vals in cli.items():
+            if dest not in cx.fields or bad:
+                continue
+            exp = expected_cli(proj_abs, dest, cx.cli[dest][0], cx.fields[dest], vals)
+            if not cli_wins(dest, exp, o[1]):
+                cx.n_oracle_fail += 1
+                rep.failing_input(dict(desc, oracle="O2 command line wins", cwd=cwd_rel, project_file=addr, option=dest,
+                                       expected=exp, observed=o[1].get(dest)), None)
+                bad = True
+        if bad:
+            break
+    return results
+
+
+def probe_include_base(impl, root: Path) -> bool:
+    """variant of the include workaround: is a relative `md_base_dir` of the metadata taken from the project file's
+    directory (repaired) or from the working directory (as is)?  A wrong decision shows up as a correspondence
+    disagreement, never as a pass."""
+    p = root / "probe-inc" / "proj"
+    (p / "sub").mkdir(parents=True, exist_ok=True)
+    (p / "sub" / "x.md").write_text("probe")
+    old = os.getcwd()
+    try:
+        os.chdir(root / "probe-inc")
+        with common.quiet():
+            st, _ = impl.S.load_markdown_settings("proj", "---\nmd_base_dir: sub\nsummary: {!x.md!}\n---\n", "p.md")
+        return st.summary == "probe"
+    except Exception:  # noqa
+        return False
+    finally:
+        os.chdir(old)
+
+
+def include_micro(cx: Ctx, n):
+    """the model's reading of one line (`c15.incline`) against `markdown_include`'s `INC_SYNTAX`: `plain` = no match;
+    `inc pre name post` = exactly one match, `split()` gives [pre, name, post], `sub('')` gives pre + post; `other`
+    (outside the modelled fragment) claims nothing and is counted."""
+    from markdown_include.include import INC_SYNTAX
+    rng = cx.rng
+    pieces = ["{!", "!}", "{", "!", "}", " ", "  ", "inc.md", "a/b.md", "x", "~", "$H", "see", ".", "\t", "{!a!}", "{! b !}", "!!", "{{"]
+    lines = ["".join(rng.choice(pieces) for _ in range(rng.choice([1, 2, 3, 4, 5, 7]))) for _ in range(n)]
+    resps = cx.drv.batch([["c15.incline", l] for l in lines])
+    bad = 0
+    for l, r in zip(lines, resps):
+        r = list(r)
+        ms = list(INC_SYNTAX.finditer(l))
+        ok = True
+        if r[0] == "plain":
+            ok = not ms
+        elif r[0] == "inc":
+            r = r + [""] * (4 - len(r))
+            ok = len(ms) == 1 and INC_SYNTAX.split(l) == r[1:4] and INC_SYNTAX.sub("", l) == r[1] + r[3]
+        cx.count("micro:incline:" + r[0])
+        if not ok:
+            bad += 1
+            if bad <= 3:
+                cx.rep.tie_broken(f"correspondence include syntax: line {l!r} model {r} regex {[m.group(0) for m in ms]}",
+                                  {"stream": "micro-incline", "line": l})
+    return len(lines), bad
+
+
+def dirname_micro(cx: Ctx, n):
+    """`os.path.dirname` + resolution of the project directory against `c15.dirname` (exact)"""
+    rng = cx.rng
+    segs = ["a", "doc", "..", ".", "", "p.md", "x y", ".h", "ford.md", "b.c"]
+    reqs, exp = [], []
+    for _ in range(n):
+        k = rng.choice([0, 1, 1, 2, 3, 4])
+        addr = ("/" if rng.random() < 0.3 else "") + "/".join(rng.choice(segs) for _ in range(k + 1))
+        if rng.random() < 0.1:
+            addr = rng.choice(["/", "//", "///a", "a/", "a//", "/a", "p.md", "./p.md", "../p.md", "//a//b"])
+        cwd = "/" + "/".join(rng.choice(["w", "pkg", "deep", "x"]) for _ in range(rng.choice([1, 2, 3])))
+        if addr.startswith("//") and not addr.startswith("///"):
+            continue   # POSIX: exactly two leading slashes are kept by normpath (assumption: no leading '//')
+        reqs.append(["c15.dirname", cwd, addr])
+        d = os.path.dirname(addr)
+        exp.append(["ok", d, os.path.normpath(os.path.join(cwd, d))])
+    bad = 0
+    for rq, e, r in zip(reqs, exp, cx.drv.batch(reqs)):
+        if list(r) != e:
+            bad += 1
+            if bad <= 3:
+                cx.rep.tie_broken(f"correspondence dirname: {rq[1:]} impl {e} model {r}", {"stream": "micro-dirname", "request": rq})
+    cx.count("micro:dirname", len(reqs))
+    return len(reqs), bad
+
+
 def gen_cli(cx: Ctx):
     rng = cx.rng
     cli = {}
@@ -1104,6 +1555,13 @@ def replay_known(cx: Ctx, rep):
                     and not o[1]["extra_mods"].startswith("D" + ik + RS + "S" + url):
                 rep.failing_input({"witness": f"extra_mods: {ik}: {url}", "fmt": f, "observed": o[1]["extra_mods"][:300]},
                                   "C15-extra-mods-intrinsic-wins")
+    # C15-md-include-base-dir-cwd: relative md_base_dir of the metadata + an include statement, started elsewhere
+    usable = [(n_, t_) for n_, t_, _ in cx.t["schema"] if t_ not in ("noInit", "other")]
+    layout_case(cx, usable, stored={
+        "project_dir": "pkg/doc", "fmt": "md", "cli": {}, "manifests": {},
+        "md": ["---", "md_base_dir: incs", "summary: {!inc.md!}", "---"],
+        "options": [["md_base_dir", "path", "incs"]], "include": {"summary": "{!inc.md!}"},
+        "files": include_files("one"), "starts": [["pkg/doc", "rel"], ["pkg", "rel"], ["<scratch>", "abs"]]})
     o_md = cx.run(["---", "project: a;b", "---"], None, None, {}, 0, {"replay": "semicolon/md"})
     o_cf = cx.run([], None, {"project": "a;b"}, {}, 0, {"replay": "semicolon/config"})
     if o_md[0] == "ok" and o_cf[0] != "ok":
@@ -1123,6 +1581,10 @@ def replay_file(cx: Ctx, rep, lean, path):
         if c.get("stream") in ("single", "combo") and c.get("options"):
             opts = [tuple(o) for o in c["options"]]
             well_typed_case(cx, opts, c.get("cli") or {}, "combo")
+            n += 1
+        elif c.get("stream") == "layout" and c.get("manifests") is not None:
+            usable = [(n_, t_) for n_, t_, _ in cx.t["schema"] if t_ not in ("noInit", "other")]
+            layout_case(cx, usable, stored=c)
             n += 1
         elif c.get("stream") == "bad":
             key = c.get("key", "")
@@ -1173,6 +1635,7 @@ def run(tier: str, seed: int, replay: str | None = None) -> int:
     n_micro = 1500 if quick else 15000
     n_combo = 260 if quick else 4000
     n_bad = 160 if quick else 2500
+    n_layout = 170 if quick else 2500
     reps_single = 3 if quick else 12
     with common.scratch_dir() as d0:
         d = Path(os.path.realpath(d0))
@@ -1192,6 +1655,8 @@ def run(tier: str, seed: int, replay: str | None = None) -> int:
             except Exception:  # noqa
                 pass
         cx.count("variant:extra_mods-" + ("repaired" if cx.eff_cmd == "c15.effr" else "asIs"))
+        cx.inc_repaired = probe_include_base(impl, d)
+        cx.count("variant:include-base-" + ("repaired" if cx.inc_repaired else "asIs"))
         if replay:
             return replay_file(cx, rep, lean, replay)
         ev_micro, bad_micro = micro(cx, n_micro)
@@ -1254,12 +1719,24 @@ def run(tier: str, seed: int, replay: str | None = None) -> int:
             if k % 50 == 49:
                 cx.flush()
         cx.flush()
+        # ---- layout (round 6): source selection, several working directories, manifests elsewhere
+        ev_dn, bad_dn = dirname_micro(cx, 300 if quick else 3000)
+        ev_in, bad_in = include_micro(cx, 400 if quick else 4000)
+        ev_micro += ev_dn + ev_in
+        bad_micro += bad_dn + bad_in
+        for k in range(n_layout):
+            layout_case(cx, usable)
+            if k % 40 == 39:
+                cx.flush()
+        cx.flush()
     drv.close()
     rep.coverage.update(
         evaluations=cx.evals + ev_micro,
         distinct_nontrivial=len(cx.distinct),
         rule="an evaluation is one run of ford.initialize() (or one micro request); non-trivial = a well-typed abstract "
-             "option set with at least one option, run in all three formats; distinct by digest of (options, values, CLI dests)",
+             "option set with at least one option, run in all three formats, or one layout case (project + manifests elsewhere + "
+             "text files + 4-5 starts from different working directories); distinct by digest of (options, values, CLI dests) / "
+             "of the whole layout",
         samples=cx.samples,
         traces_validated_against_impl=cx.evals + ev_micro - cx.n_unmodelled,
         correspondence_disagreements=cx.n_corr_bad + bad_micro,
@@ -1277,6 +1754,14 @@ def run(tier: str, seed: int, replay: str | None = None) -> int:
         "creation_date is compared only when it contains no strftime directive",
         "ASCII whitespace only (str.strip / str.split on other Unicode spaces not modelled); no '$' in paths (expandvars), "
         "no symlinks below the project directory, no leading '//'",
+        "layout stream (round 6): the file system the model sees is the list of fpm.toml files the harness wrote (state = the "
+        "harness's own tomllib reading: absent / not TOML / no [extra] / no [extra.ford] / the table) and the text files it "
+        "wrote (lines as Python's readlines() returns them); directories exist, no symlinks, no '~' or '$' in names",
+        "include workaround of the metadata format: modelled exactly on the documented shape `pre{! name !}post` (one statement "
+        "per line, included files free of include statements); any other text containing `{!` is `unmodelled` (counted); "
+        "markdown_include's regex is compared with the model's line reader in the micro stream `incline`; include values are "
+        "generated for the metadata format only (fpm.toml / --config keep the text literally - a documented, deprecated "
+        "difference between the formats that oracle O1 is not asked about)",
         "Python type confusions downstream of an ill-typed TOML / --config value are `unmodelled` (skipped in the "
         "correspondence, counted); the oracle still evaluates them",
     ]
